@@ -168,7 +168,7 @@ def gen(rng, tier):
 def gen_failing(rng, tier):
     """makegateway calls that fail must leave no process behind (after the group was terminated)."""
     why = rng.choice(["id-taken-auto", "id-taken-explicit", "unknown-via", "missing-python", "ssh-nohost",
-                      "dies-in-bootstrap"])
+                      "dies-in-bootstrap", "config-nice-invalid", "config-chdir-fails"])
     actors = [{"side": "i", "gw": 0, "chan": None, "ops": []}]
     main = actors[0]["ops"]
     specs = []
@@ -188,6 +188,14 @@ def gen_failing(rng, tier):
     elif why == "ssh-nohost":
         specs = ["popen//id=a"]
         main.append(["makegateway", "ssh=nohost.invalid//id=b"])
+    elif why == "config-nice-invalid":
+        # fails after the worker was started and bootstrapped: int('high') in the chdir/nice/env step
+        specs = ["popen//id=a"]
+        main.append(["makegateway", "popen//id=b//nice=high"])
+    elif why == "config-chdir-fails":
+        # the remote configuration step raises (mkdir below a non-directory): RemoteError from makegateway
+        specs = ["popen//id=a"]
+        main.append(["makegateway", "popen//id=b//chdir=/dev/null/vsim-sub"])
     else:
         specs = ["popen//id=a"]
         main.append(["makegateway", rng.choice(["popen//id=b", "popen//python=/sim/bare-python3//id=b"])])
